@@ -182,6 +182,21 @@ def oracle_c01(obs, rep, tier):
 # --------------------------------------------------------------------------------------------------
 # C02: rule-abiding => accepted
 # --------------------------------------------------------------------------------------------------
+def c02_structural_class(an):
+    """Key refinement for one recorded defect: the blueprint is in the class only because two by-value
+    consumers sit on mutually exclusive control-flow paths (refmodel.exclusive_by_value_sites)."""
+    try:
+        for r in an.routes:
+            P = M.Pipeline(an, r)
+            D = M.Deps(an, P)
+            for ty in D.ctor_of:
+                if M.exclusive_by_value_sites(P, D, ty):
+                    return "exclusive-paths[error-handler-of-pre|later-component]"
+    except Exception:
+        return None
+    return None
+
+
 def oracle_c02(obs, rep, tier):
     n = 0
     in_class = 0
@@ -202,6 +217,9 @@ def oracle_c02(obs, rep, tier):
                 samples.append(sample_spec(spec))
             if gen["exit"] != 0 or gen["n_error"] > 0:
                 title = first_error_title(gen["stderr"])
+                cls = c02_structural_class(an)
+                if cls:
+                    title = f"{cls}:{title[:80]}"
                 rep.violation(f"{fam}:reject:{title}",
                               f"blueprint {spec['id']} is inside the rule-abiding class but pavexc rejected it: {title}",
                               {"oracle": "C02", "spec": spec, "stderr": ANSI.sub('', gen["stderr"])[:3000]})
